@@ -79,9 +79,12 @@ static void vt_feed(struct vt *t, const char *s, long n)
 				if (t->c < 0)
 					t->c = 0;
 			} else if (ch == 'r') {
-				t->top = any ? p[0] - 1 : 0;
-				t->bot = any && np ? p[1] - 1 : t->rows - 1;
-				t->r = t->c = 0;
+				int top = any ? p[0] - 1 : 0, bot = any && np ? p[1] - 1 : t->rows - 1;
+				if (top < bot && bot < t->rows) {	/* (a region that is not at least two rows is ignored, as terminals do) */
+					t->top = top;
+					t->bot = bot;
+					t->r = t->c = 0;
+				}
 			} else if (ch == 'M') {
 				vt_scroll(t, t->r, any ? p[0] : 1);
 			} else if (ch == 'L') {
